@@ -248,18 +248,7 @@ class Run:
             if f.first() != m["first"] or f.last() != m["last"] or min(e[1] for e in f.ents) != m["sts"] or max(e[1] for e in f.ents) != m["bts"]:
                 self.problem("corr", what="metadata does not describe contents", file=n, meta=str(m))
 
-    def l0_ties(self, levels):
-        """the model's L0 lookup order is by biggest timestamp; two L0 files with the SAME biggest timestamp are
-        outside what it fixes (cannot come from flushes or accepted ingests; a recovered tree could hold them)"""
-        seen = {}
-        for n in levels[0]:
-            b = self.meta[n]["bts"]
-            if b in seen:
-                self.problem("corr", what="two level-0 files with the same biggest timestamp: lookup order between them is outside the model", files=[seen[b][:8], n[:8]], bts=b)
-            seen[b] = n
-
     def compare_version(self, levels, where):
-        self.l0_ties(levels)
         v = self.model.cmd("V")
         ids = v.split(" ")[1].split("/")
         mine = [",".join(str(self.fid(n)) for n in lv) for lv in levels]
@@ -328,15 +317,11 @@ class Run:
 
     # -- ops
     def write(self, batch):
-        """batch: list of (key, value|None); a key named twice keeps its last write (the store
-        dedupes the same way; the model's acceptance asks for distinct keys)"""
+        """batch: list of (key, value|None); a key named twice keeps its last write (the store dedupes;
+        Model.write transcribes that loop: `dedup_last`)"""
         if self.dead:
             return
-        raw = batch
-        last = {}
-        for i, (k, v) in enumerate(batch):
-            last[k] = i
-        batch = [kv for i, kv in enumerate(batch) if last[kv[0]] == i]
+        raw = batch          # the model sees the batch as submitted: Model.write keeps the last write to each key, as the store does
         if len(raw) == 1:
             k, v = raw[0]
             line = ("put %s %s" % (hx(k), hx(v))) if v is not None else ("del %s" % hx(k))
@@ -347,10 +332,10 @@ class Run:
         if not out.endswith(" ok"):
             self.problem("error", what="write returned an error or panicked", op=line, out=out)
             return
-        m = self.model.cmd("W " + ",".join("%s=%s" % (hx(k), "~" if v is None else hx(v)) for k, v in batch))
+        m = self.model.cmd("W " + ",".join("%s=%s" % (hx(k), "~" if v is None else hx(v)) for k, v in raw))
         if m != "W 1":
             self.problem("corr", what="model rejected batch", op=line)
-        for k, v in batch:
+        for k, v in raw:     # python reference map: later entries of a batch overwrite earlier ones
             self.spec[k] = v
         self.mem_nonempty = True
         self.n_steps["write"] += 1
